@@ -252,13 +252,15 @@ func init() {
 	}
 
 	registry["C05"] = &Check{
-		Rule: "world scenarios (DESIGN §3.5): trees of 1-5 probe actors (depth <= 3) with drawn supervision strategies / decision lists, providers, failing OnLaunch incarnations, failing restart hooks, failures while handling OnKill / OnKilled; scripts of 1-8 operations (tell with nested handler programs: tell, panic, Failed, kill, spawn, become/unbecome, watch/unwatch; kill poison or not; spawn incl. duplicate names) executed inside a synctest bubble, sequentially settled or racing (1 in 4); the system is stopped at the end. Oracle: per-actor lifecycle state machine over the complete behaviour trace + OnLaunch count = successful spawns + completed restarts per actor + instance rule (provider => fresh instance, none => same) + behaviour reset. Non-trivial = at least one completed restart. Distinct = hash of the scenario. Second unit: an actor assembled with the library's NewComplexCombinationActor from 1-4 components (nil entries in between), each with or without an OnPrelaunch hook that succeeds or returns an error; reference model: hooks in component order up to the first failure; a failure => ActorOf returns an error and no component ever receives a message, otherwise one OnLaunch per component in order; non-trivial there = a failing hook among several components. Actors of the lifecycle unit may also spawn a child while they are terminating (on a child's OnKilled).",
+		Rule: "world scenarios (DESIGN §3.5): trees of 1-5 probe actors (depth <= 3) with drawn supervision strategies / decision lists, providers, failing OnLaunch incarnations, failing restart hooks, failures while handling OnKill / OnKilled; scripts of 1-8 operations (tell with nested handler programs: tell, panic, Failed, kill, spawn, become/unbecome, watch/unwatch; kill poison or not; spawn incl. duplicate names) executed inside a synctest bubble, sequentially settled or racing (1 in 4); the system is stopped at the end. Oracle: per-actor lifecycle state machine over the complete behaviour trace + OnLaunch count = successful spawns + completed restarts per actor + instance rule (provider => fresh instance, none => same) + behaviour reset. Non-trivial = at least one completed restart. Distinct = hash of the scenario. Second unit: an actor assembled with the library's NewComplexCombinationActor from 1-4 components (nil entries in between), each with or without an OnPrelaunch hook that succeeds or returns an error; reference model: hooks in component order up to the first failure; a failure => ActorOf returns an error and no component ever receives a message, otherwise one OnLaunch per component in order; non-trivial there = a failing hook among several components. Actors of the lifecycle unit may also spawn a child while they are terminating (on a child's OnKilled). Unit window: the parked termination / restart chain of the window unit of C03 (see there: kill, graceful kill, restart, failure answered by Stop, kill of the parent; told, watched, killed again, name spawned again meanwhile), judged per actor instance: OnLaunch before anything else, nothing between the own OnKilled and the next OnLaunch of a restarted instance, never two OnLaunch in one incarnation, and a successor whose ActorOf returned no error is launched.",
 		Assumptions: []string{
 			"virtual clock / quiescence by testing/synctest; in racing mode the interleaving is the Go scheduler's",
 			"a one-for-all Stop decision of the system (root) strategy is not generated: it also terminates the harness's observer actor",
 		},
 		Units: []Unit{
 			{Name: "combo", Pkg: "c05", Run: "^TestC05Combination$", QuickChecks: 3000, ThoroughChecks: 30000, ThoroughShards: 2, CaseFile: true},
+			{Name: "window", Pkg: "cwin", Run: "^TestC05Window$", Env: map[string]string{"VERIF_PROPERTY": "C05"}, QuickChecks: 6000, ThoroughChecks: 60000, ThoroughShards: 12, CaseFile: true, CrashOracle: "no-crash", Inject: []Inject{{RepoRel: "internal/actor/zz_verif_export.go", Src: "overlay/actor_export.go.txt"}},
+				Windows: map[string][]string{"internal/actor/killed_handler.go": nil}},
 			{Name: "life", Pkg: "c05", Run: "^TestC05Lifecycle$", QuickChecks: 6000, ThoroughChecks: 60000, ThoroughShards: 16, CaseFile: true, CrashOracle: "no-crash"},
 		},
 	}
